@@ -1471,6 +1471,33 @@ def rule_r11(chk, p, t):
     C15.rule_r7(chk, p, t, rid="C01.R11", events=(("scheduled_impulse.ScheduledImpulseEvent", "impulse", ("start",)),))
 
 
+def rule_r12(chk, p, t):
+    r = chk.rule(
+        "C01.R12",
+        "every queued event reaches the integrator",
+        1,
+        "an event delivered to an agent's queue takes effect only if Celestial._prepEvents hands it to solve_ivp's event "
+        "list: all of `scheduled_events` (and all station keepers) are added - by extend / a starred list / a loop that "
+        "appends its element on EVERY iteration path.  A conditional append (a `continue`, a membership test that relies "
+        "on value equality of event objects) drops one of two distinct events scheduled for the same instant: it is "
+        "delivered, queued, never applied, and pruned as past (shared with C15.R2)",
+        "what the integrator does with the event functions",
+    )
+    from rules.C15 import prep_events_forwarding
+
+    cel = p.cls("resonaate.dynamics.celestial.Celestial")
+    pe = cel.methods.get("_prepEvents")
+
+    def one():
+        ok, why = prep_events_forwarding(pe)
+        if ok:
+            r.ok(pe.qualname, why, pe.loc())
+        else:
+            r.violation(pe.qualname, "events-not-forwarded", why, pe.loc())
+
+    r.guard(pe.qualname, one)
+
+
 def run(chk, p, t):
     chk.explanation = (
         "Static decision of structural necessary conditions of C01 on the current source: (R1) window tiling "
@@ -1487,7 +1514,7 @@ def run(chk, p, t):
         "agent time equals the clock time before the tick when prunePropagateEvents runs (PropagateRegistration.generateSubmission)",
         "call resolution by the repo's annotations and class-hierarchy analysis",
     ]
-    for fn in (rule_r1, rule_r2, rule_r3, rule_r4, rule_r5, rule_r6, rule_r7, rule_r8, rule_r9, rule_r10, rule_r11):
+    for fn in (rule_r1, rule_r2, rule_r3, rule_r4, rule_r5, rule_r6, rule_r7, rule_r8, rule_r9, rule_r10, rule_r11, rule_r12):
         rid = "C01.R" + fn.__name__.split("_r")[-1]
         if not chk.wants(rid):
             continue
